@@ -149,6 +149,17 @@ def make_scenarios(prop, tier, seed):
             sc["probes"] = {"c13": 1000 + i * 37 + seed, "shift": 0}
             if (i // 5) % 3 < 2:
                 sc["seed"] = 0
+            bl = sc.get("doc", {}).get("instance_config", {}).get("buffer")
+            if isinstance(bl, list) and len(bl) >= 2 and not sc["meta"].get("features", []).count("alpha_buffer_names"):
+                # a second output buffer: which one is "the first" must not depend on hash order
+                import yaml
+                used = {e["name"] for e in bl}
+                name = next(f"b-{k}" for k in range(40, 80) if f"b-{k}" not in used)
+                if len(bl) == 2:
+                    bl.append({"name": name, "type": "flex", "role": "output"})
+                elif not any(k.startswith("b-") and isinstance(v, dict) for k, v in (sc["doc"].get("init_state") or {}).items() if k == bl[2]["name"]):
+                    bl[2]["role"] = "output"
+                sc["dsl"] = yaml.safe_dump(sc["doc"], sort_keys=False)
         if prop != "C13" and sc["probes"].get("c13"):
             sc["probes"]["c13"] = 0   # twins cost seconds each: only the C13 check pays for them
         if prop == "C17" and i % 3 == 0:
